@@ -27,7 +27,25 @@ inductive WOp where
   | job (k : Nat)
   | unknownPid
   | unknownJobId
+  /-- `%st` / `%nap`: the job whose name starts so (kind 1 / 2) -/
+  | byName (kind : Nat)
+  /-- `%%`, `%+` -/
+  | current
+  /-- `%-` -/
+  | previous
+  /-- `%N` -/
+  | number (n : Nat)
   deriving Repr
+
+/-- signals of the run, by name; the model numbers them 1.. (the numbering of the virtual system is
+    arbitrary: observations show names) -/
+def sigNames : List String := ["HUP", "INT", "QUIT", "KILL", "TERM", "USR1", "USR2", "STOP", "CONT"]
+
+def sigNo (name : String) : Nat := (sigNames.idxOf name) + 1
+
+/-- an exit status as the observation shows it: above 384 = killed / interrupted by that signal -/
+def showStatus (st : Nat) : String :=
+  if st > 384 then s!"K{sigNames.getD (st - 385) "?"}" else toString st
 
 inductive Stmt where
   | pf (on : Bool)
@@ -35,6 +53,15 @@ inductive Stmt where
   | flow (fs : List Spec.Flow)
   | bg (ms : List Member)
   | wj (ops : List WOp)
+  | monitor (on : Bool)
+  | bn (ms n : Nat)
+  | kill (sig : String) (k : Nat)
+  | tw (sig : String) (n : Nat)
+  | ti
+  | gj (k : Nat)
+  | wx
+  | sc (n : Nat)
+  | scp (n : Nat)
   | w
   | wu
   | g (n : Nat)
@@ -99,7 +126,23 @@ structure St where
   jobs : List (Nat × Nat × Nat) := []
   /-- the job table: pids of the jobs not yet removed by `wait` -/
   active : List Nat := []
+  /-- per job (by pid): kind of its name (1 = `st …`, 2 = `nap …`, 0 = other), started without job control -/
+  info : List (Nat × Nat × Bool) := []
+  /-- napping jobs that certainly have not finished (no statement since let virtual time pass) -/
+  fresh : List Nat := []
+  /-- model column only: children that sleep.  Virtual time is not part of the small-step model, so a
+      sleeping child is kept out of the scheduler (parked as a non-waitable entry of the process table)
+      until a statement lets time pass; then it becomes an ordinary running child with this final state. -/
+  asleep : List (Nat × Result) := []
+  /-- jobs inserted since the job table was last empty, and whether nothing was removed or stopped since
+      (then `%N` = N-th of them, `%%` = the first, `%-` = the second: C12 `jobid_designates`) -/
+  epoch : List Nat := []
+  clean : Bool := true
+  monitor : Bool := false
   nasync : Nat := 0
+  /-- distinct values of `$!` seen by the probes, and `nasync` at the last probe -/
+  seen : Nat := 0
+  probed : Nat := 0
   status : Nat := 0
   x : String := ""
   out : List String := []
@@ -156,33 +199,61 @@ def St.awaitJobs : St → List (Option Nat) → Nat → St × Nat
     | (st1, some res) => St.awaitJobs st1 t (waitStatus res)
     | (st1, none) => (st1, 998)
 
-def St.pidOf (st : St) : WOp → Option Nat
-  | .job k => (st.jobs.find? (fun j => j.1 == k)).map (·.2.1)
-  | .unknownPid => some 99999
-  | .unknownJobId => none
+/-- `search::resolve` for the operand forms of the run: `some (some pid)` = a process ID (a job's or not),
+    `some none` = a job ID naming no job, `none` = an ambiguous job ID (the built-in fails) -/
+def St.pidOf (st : St) : WOp → Option (Option Nat)
+  | .job k => some ((st.jobs.find? (fun j => j.1 == k)).map (·.2.1))
+  | .unknownPid => some (some 99999)
+  | .unknownJobId => some none
+  | .byName kind =>
+    match st.active.filter (fun p => (st.info.find? (fun i => i.1 == p)).map (·.2.1) == some kind) with
+    | [] => some none
+    | [p] => some (some p)
+    | _ => none
+  | .current => some (if st.clean then st.epoch.head? else none)
+  | .previous => some (if st.clean then st.epoch[1]? else none)
+  | .number n => some (if st.clean ∧ 1 ≤ n then st.epoch[n - 1]? else none)
 
 def St.truth (st : St) (pid : Nat) : Nat :=
   ((st.jobs.find? (fun j => j.2.1 == pid)).map (·.2.2)).getD 999
 
+/-- virtual time passes: the sleeping children run -/
+def St.wake (st : St) : St :=
+  let cs := st.asleep.foldl (fun (cs : List Child) (e : Nat × Result) =>
+    cs.set e.1 { state := .running (fuelOf st.digits e.1) e.2 }) st.sys.children
+  { st with sys := { st.sys with children := cs }, asleep := [] }
+
+/-- bookkeeping after `wait`: the table may have shrunk -/
+def St.afterWait (st : St) (before : List Nat) : St :=
+  let st := { st with fresh := [] }
+  if st.active.isEmpty then { st with epoch := [], clean := true }
+  else if st.active.length < before.length then { st with clean := false }
+  else st
+
 /-- `wait operands…` -/
 def St.waitOps (st : St) (ops : List WOp) : St :=
-  if st.useSys then
-    -- `Command::execute`: resolve every operand first, then await
-    let operands : List Operand := ops.map fun o => match st.pidOf o with
-      | some p => Operand.pid p
-      | none => Operand.jobId
-    let (st1, v) := St.awaitJobs st (operands.map (resolve st.active)) 0
-    { st1 with status := v }
-  else
-    let (v, active) := Spec.waitOps st.truth st.active (ops.map st.pidOf) 0
-    { st with status := v, active := active }
+  let st := st.wake
+  match ops.mapM st.pidOf with
+  | none => { st with status := 2, fresh := [] }   -- ambiguous job ID: `report_error`, nothing is awaited
+  | some pids =>
+    if st.useSys then
+      -- `Command::execute`: resolve every operand first, then await
+      let operands : List Operand := pids.map fun o => match o with
+        | some p => Operand.pid p
+        | none => Operand.jobId
+      let (st1, v) := St.awaitJobs st (operands.map (resolve st.active)) 0
+      ({ st1 with status := v }).afterWait st.active
+    else
+      let (v, active) := Spec.waitOps st.truth st.active pids 0
+      ({ st with status := v, active := active }).afterWait st.active
 
 /-- `wait` without operands: every job in the table -/
 def St.waitAllJobs (st : St) : St :=
+  let st := st.wake
   if st.useSys then
     let (st1, v) := St.awaitJobs st (st.active.map some) 0
-    { st1 with status := if v = 998 then 998 else 0, active := if v = 998 then st1.active else [] }
-  else { st with status := 0, active := [] }
+    ({ st1 with status := if v = 998 then 998 else 0, active := if v = 998 then st1.active else [] }).afterWait st.active
+  else ({ st with status := 0, active := [] }).afterWait st.active
 
 def flowProg : Spec.Flow → SProg
   | .spew n => .spew n
@@ -203,6 +274,23 @@ def St.subshell (st : St) (v : Nat) : St :=
   let (st1, got) := st.forkWait [v]
   { st1 with status := got.getD 0 999 }
 
+/-- an asynchronous list has been started: `$!`, job table -/
+def St.newJob (st : St) (v kind : Nat) : St :=
+  let k := st.nasync + 1
+  let (st1, pid) := if st.useSys then st.fork [v] else (st, k)
+  { st1 with jobs := st1.jobs ++ [(k, pid, v)], active := st1.active ++ [pid],
+             info := st1.info ++ [(pid, kind, !st.monitor)], epoch := st1.epoch ++ [pid],
+             nasync := k, status := 0 }
+
+/-- the job with pid `pid` will end killed by signal `sig` (it is alive: a napping job) -/
+def St.killJob (st : St) (pid sig : Nat) : St :=
+  let st1 := { st with jobs := st.jobs.map fun j => if j.2.1 == pid then (j.1, pid, sig + 384) else j,
+                       fresh := st.fresh.filter (· != pid) }
+  if st.useSys ∧ (st.asleep.any fun e => e.1 == pid) then
+    { st1 with sys := { st1.sys with children := st1.sys.children.set pid { state := .running 0 (.signaled sig) } },
+               asleep := st1.asleep.filter fun e => e.1 != pid }
+  else st1
+
 def St.stmt (st : St) : Stmt → St
   | .pf on => { st with pf := on, status := 0 }
   | .pipe neg ms =>
@@ -220,12 +308,47 @@ def St.stmt (st : St) : Stmt → St
     let v := match sts with
       | [v] => v
       | _ => pipeFold st.useSys st.pf (nestedWait st.useSys st.digits (st.runs + 5) sts)
-    let k := st.nasync + 1
-    if st.useSys then
-      let (st1, idx) := st.fork [v]
-      { st1 with jobs := st1.jobs ++ [(k, idx, v)], active := st1.active ++ [idx], nasync := k, status := 0 }
-    else { st with jobs := st.jobs ++ [(k, k, v)], active := st.active ++ [k], nasync := k, status := 0 }
+    st.newJob v (match ms with | .st _ :: _ => 1 | _ => 0)
   | .wj ops => st.waitOps ops
+  | .monitor on => { st with monitor := on, status := 0 }
+  | .bn _ n =>
+    let st1 := st.newJob n 2
+    let pid := (st1.jobs.getLast?.map (·.2.1)).getD 0
+    let st2 := { st1 with fresh := st1.fresh ++ [pid] }
+    if st.useSys then
+      { st2 with asleep := st2.asleep ++ [(pid, .exited n)],
+                 sys := { st2.sys with children := st2.sys.children.set pid { state := .halted (.exited n) } } }
+    else st2
+  | .kill sig k =>
+    match st.jobs.find? (fun j => j.1 == k) with
+    | none => { st with status := 0 }
+    | some (_, pid, _) =>
+      let st0 := { st with status := 0 }
+      if !st.fresh.contains pid then st0
+      else if sig == "STOP" then { st0 with clean := false }
+      else if sig == "CONT" then st0
+      else if (sig == "INT" || sig == "QUIT") &&
+          ((st.info.find? (fun i => i.1 == pid)).map (·.2.2)).getD false then st0
+      else st0.killJob pid (sigNo sig)
+  | .tw sig n =>
+    -- the helper job; the `wait` for it is interrupted by the trapped signal: trap action first, then 384+sig
+    let st1 := st.wake.newJob n 0
+    { st1 with status := sigNo sig + 384, out := s!"o:trap{sig.toLower}" :: st1.out, fresh := [] }
+  | .ti => { st with status := 0 }
+  | .gj _ => { st with status := if st.useSys then waitStatus .echild else Spec.wait none }
+  | .wx => { st with status := 2 }
+  | .sc n =>
+    -- job 1 `st 0 &` is waited for at once (the table is empty again), job 2 is the helper (exit 0)
+    let st1 := st.wake.newJob 0 1
+    let st2 := st1.waitOps [.job 1]
+    let st3 := st2.newJob 0 0
+    { st3.subshell n with fresh := [] }
+  | .scp n =>
+    let st1 := st.wake.newJob 0 1
+    let st2 := st1.waitOps [.job 1]
+    let st3 := st2.newJob 0 0
+    let (st4, got) := st3.forkWait [n, 0]
+    { st4 with status := pipeFold st.useSys st.pf got, fresh := [] }
   | .w => st.waitAllJobs
   | .wu => st.waitOps [.unknownPid]
   | .g n => st.subshell n
@@ -247,9 +370,10 @@ def St.stmt (st : St) : Stmt → St
 /-- after every command: `update_all_subshell_statuses`, then the probe -/
 def St.probe (st : St) : St :=
   let st1 := if st.useSys then st.exec [.reapAll] else st
-  let bang := if st1.nasync = 0 then "-" else s!"a{st1.nasync}"
+  let st1 := if st1.nasync ≠ st1.probed then { st1 with seen := st1.seen + 1, probed := st1.nasync } else st1
+  let bang := if st1.nasync = 0 then "-" else s!"a{st1.seen}"
   let x := if st1.x.isEmpty then "-" else st1.x
-  { st1 with out := s!"{st1.status}/{bang}/{x}" :: st1.out }
+  { st1 with out := s!"{showStatus st1.status}/{bang}/{x}" :: st1.out }
 
 def zombies (s : Sys) : Nat :=
   s.children.countP fun c => c.state.isAlive || c.changed
@@ -258,6 +382,6 @@ def interp (useSys : Bool) (digits : List Nat) (prog : List Stmt) : String :=
   let st0 : St := { useSys := useSys, digits := digits }
   let st : St := prog.foldl (fun (st : St) (s : Stmt) => (st.stmt s).probe) st0
   let z := if useSys then zombies st.sys else 0
-  " ".intercalate st.out.reverse ++ s!" st={st.status} z={z}"
+  " ".intercalate st.out.reverse ++ s!" st={showStatus st.status} z={z}"
 
 end YashModel.Proc
